@@ -1,5 +1,6 @@
 """Path exploration driver: runs a harness body under every feasible decision prefix and discharges its obligations."""
-import time, traceback
+import time, traceback, sys
+sys.setrecursionlimit(12000)
 import z3
 from .interp import Ctx, Stats, Panic, Unsupported, StepLimit, Interp
 from .values import *
@@ -99,6 +100,7 @@ _LOADED = {}
 
 def load(verbose=True):
     """parse the MIR of /repo's current tree; -> (Interp, info)"""
+    verbose = True          # one parsed program per tree: the disambiguated callee names are always needed (atom! expansions)
     plain, verb, info = driver.mir_dump(verbose)
     key = info['repo_hash']
     if key in _LOADED:
